@@ -429,6 +429,43 @@ def number_gates(chk, prog):
             chk.ob("R3.hex_gate", p, "\\uXXXX digits are checked to be hexadecimal before from_str_radix", ok,
                    "from_str_radix also accepts a leading `+`: \"\\u+123\" would be accepted", where=b.where(blk))
     chk.floor("number / hex conversion sites in the parser", n, 3)
+    # the value of a number is what f64::from_str makes of the token — nothing else computes it (a hand-written fast path that divides an
+    # integer by a power of ten rounds twice and lands 1 ulp off for 17-19 digit literals)
+    m_ = 0
+    for p in sorted(reachp):
+        b = prog.bodies[p]
+        if "promoted" in p:
+            continue
+        for bi, blk in enumerate(b.blocks):
+            for st in blk["stmts"]:
+                rv = st.get("rv")
+                if rv and rv.get("k") == "agg" and str(rv.get("adt", "")).endswith("value::Value") and rv.get("variant") == "Number" and rv.get("ops"):
+                    m_ += 1
+                    d = panics._strip(describe(prog, b, rv["ops"][0]))
+                    # walk from the stored value down to the f64 parse through unwrapping wrappers only
+                    x = d
+                    from_parse, arith = False, False
+                    for _ in range(12):
+                        if not isinstance(x, tuple) or not x:
+                            break
+                        if x[0] == "field" and isinstance(x[1], tuple):
+                            x = x[1]
+                            continue
+                        if x[0] == "call":
+                            if core.re.search(r"<impl str>::parse$|FromStr::from_str$", x[1]):
+                                from_parse = True
+                                break
+                            if core.re.search(r"Try>?::branch$|Result::<T, E>::(map_err|ok|unwrap|expect)$|Option::<T>::(unwrap|expect|ok_or|ok_or_else)$|(::|>::)(deref|as_ref|borrow|clone|into|from)$", x[1]) and x[2]:
+                                x = x[2][0]
+                                continue
+                        if x[0] == "multi":
+                            arith = True      # more than one way to compute the value
+                        break
+                    arith = arith or not from_parse
+                    chk.ob("R3.number_value", p, "Value::Number carries f64::from_str(token) and nothing computed otherwise", from_parse and not arith,
+                           f"the number is {panics.short_desc(d)[:140]}: a value computed outside f64::from_str is not the correctly rounded value the text denotes",
+                           where=b.where(bi))
+    chk.floor("Value::Number construction sites in the parser", m_, 1)
 
 
 LEN_CALL = r"(String::len|Vec::<T, A>::len|<impl str>::len|<impl \\[T\\]>::len|Iterator>?::count|Iterator::count|String::capacity|Vec::<T, A>::capacity)$"
@@ -571,6 +608,45 @@ def number_output(chk, prog):
     chk.ob("R7.number_output", "humphrey_json::serialize", "no float->int / float narrowing casts reachable from serialize", casts == 0, "")
 
 
+def serialiser_no_panic(chk, prog):
+    """R6.no_panic: `serialize` / `serialize_pretty` with ANY indent return text for every value: the panic-site inventory of the serialiser
+    (overflow asserts, slicing, indexing, unwrap ..) discharges, by the idioms of hv.panics or a reviewed entry whose condition is re-checked."""
+    from . import c03
+    ents = [p for p in prog.bodies if p.startswith("humphrey_json::serialize::") and core.re.search(r"::(serialize|serialize_pretty|serialize_pretty_indent)$", p)]
+    chk.floor("serialiser entry points", len(ents), 2)
+    bodies, sites = panics.inventory(prog, ents)
+    allow = panics.load_allow()
+    for st in sites:
+        how, why = panics.try_discharge(prog, st)
+        if how is None and st.kind == "assert" and str(st.what).startswith("overflow:Add"):
+            # indentation arithmetic: sums of the (level x size, size) pair handed down the recursion, lengths of in-memory strings and small constants
+            def small(d):
+                d = panics._strip(d)
+                if not isinstance(d, tuple) or not d:
+                    return False
+                if d[0] == "lit":
+                    return isinstance(d[1], int) and 0 <= d[1] < 1 << 32
+                if d[0] == "call" and d[1].endswith("::len"):
+                    return True
+                if d[0] == "field":
+                    return small(d[1]) or (isinstance(d[1], tuple) and d[1][0] in ("param", "upvar", "field", "local"))
+                if d[0] in ("param", "upvar"):
+                    return "indent" in str(d[-1])
+                if d[0] == "bin" and d[1].startswith("Add"):
+                    return small(d[2]) and small(d[3])
+                return False
+            if all(small(o) and desc_contains(o, lambda y: (y[0] in ("param", "upvar") and "indent" in str(y[-1])) or y[0] == "lit" or (y[0] == "call" and y[1].endswith("::len"))) for o in st.operands):
+                how, why = "memory", "indentation (nesting level x indent size) / string length arithmetic: below 2^64 for any value that fits in memory"
+        if how is None and st.fingerprint in allow:
+            ok, why2 = c03.check_allow_cond(prog, st, allow[st.fingerprint], bodies)
+            if ok:
+                how, why = "reviewed", f"{allow[st.fingerprint]['reason']} [{why2}]"
+        chk.ob("R6.no_panic", st.body.path, st.fingerprint.split("|", 1)[1], how is not None,
+               f"the serialiser can panic: {st.kind} {st.what} ({why or 'no discharge idiom applies'}): for some value / indent no text is produced" if how is None else f"{how}: {why}",
+               where=st.where())
+    chk.floor("bodies of the serialiser examined for panics", len(bodies), 5)
+
+
 def unicode_escapes(chk, prog):
     """R8: the character pushed for a `\\u` escape is char::from_u32(unit) for a single unit, and for a pair either
     char::decode_utf16([first, second]) or the explicit formula 0x10000 + (first - 0xD800) * 0x400 + (second - 0xDC00) under
@@ -698,4 +774,5 @@ def run(chk):
     depth_pairing(chk, prog)
     serialiser_structure(chk, prog)
     number_output(chk, prog)
+    serialiser_no_panic(chk, prog)
     unicode_escapes(chk, prog)
